@@ -1,8 +1,8 @@
 ----------------------------- MODULE MerkleTrace -----------------------------
 (***************************************************************************)
 (* Leg T/G for C15.  The driver registers a recording crypto.Hash whose    *)
-(* k-th digest is the 16-byte big-endian encoding of k and which logs the  *)
-(* bytes written before each Sum ("calls").  From the logged calls TLC     *)
+(* k-th digest (of the process) is the 16-byte big-endian encoding of k    *)
+(* and which logs the bytes written before each Sum ("calls").  From the logged calls TLC     *)
 (* rebuilds the term the real Hasher computed and compares it with MTH.    *)
 (***************************************************************************)
 EXTENDS Merkle, Json
@@ -14,10 +14,16 @@ vars == <<l, bad>>
 IdOf(b) == IF Len(b) # 16 \/ \E i \in 1..12 : b[i] # 0 \/ b[13] >= 128 THEN 0
            ELSE ((b[13] * 256 + b[14]) * 256 + b[15]) * 256 + b[16]
 
+\* calls: the logged calls <<[id, inp]>> of this event plus older ones its results refer to (ids number the calls of
+\* the whole process, so a digest kept from an earlier call still names its preimage)
+HasCall(calls, id) == \E k \in DOMAIN calls : calls[k].id = id
+CallOf(calls, id) == calls[CHOOSE k \in DOMAIN calls : calls[k].id = id].inp
+MaxId(calls) == IF Len(calls) = 0 THEN 0 ELSE calls[Len(calls)].id        \* shipped in ascending order
+
 RECURSIVE TermOf(_, _, _)
 TermOf(calls, id, bound) ==       \* ids must decrease strictly: the log is acyclic
-  IF id < 1 \/ id > Len(calls) \/ id >= bound THEN <<"bad">>
-  ELSE LET inp == calls[id]
+  IF id < 1 \/ ~HasCall(calls, id) \/ id >= bound THEN <<"bad">>
+  ELSE LET inp == CallOf(calls, id)
        IN IF Len(inp) = 0 THEN <<"empty">>
           ELSE IF inp[1] = 0 THEN <<"leaf", SubSeq(inp, 2, Len(inp))>>
           ELSE IF inp[1] = 1 /\ Len(inp) = 33
@@ -30,8 +36,8 @@ Conforms(e) ==
   CASE e.op = "merkle.Hash" ->
          IF Len(e.in.fail) = 0
          THEN /\ e.out.panic = "" /\ e.out.ok /\ e.out.unmodified /\ e.out.size = 16
-              /\ TermOf(e.out.calls, IdOf(e.out.root), Len(e.out.calls) + 1) = MTH(e.in.leaves)
-              /\ Len(e.in.leaves) = 0 => e.out.emptyroot_term_ok
+              /\ TermOf(e.out.calls, IdOf(e.out.root), MaxId(e.out.calls) + 1) = MTH(e.in.leaves)
+              /\ Len(e.in.leaves) = 0 => TermOf(e.out.calls, IdOf(e.out.emptyroot), MaxId(e.out.calls) + 1) = <<"empty">>
          ELSE /\ e.out.panic = "" /\ ~e.out.ok /\ e.out.unmodified
               /\ e.out.root = <<>>
               /\ e.out.err = MinOf(RangeOf(e.in.fail))        \* the first marshaling error
